@@ -61,3 +61,19 @@ Theorem C08_scatter_reduce_shape_fixed : forall s dim idx include_self out,
   torch_scatter_shape s dim idx (Some idx) = Some out -> aten_scatter_reduce_shape_v true s dim idx idx include_self = Some out.
 Proof. exact scatter_reduce_v_fixed. Qed.
 Print Assumptions C08_scatter_reduce_shape_fixed.
+
+(* repaired code (proposed_fixes/ready/C08_17_scatter_zero_dim_self.diff): a 0-d self with a 0-d or 1-d index (src of the index's shape) *)
+Theorem C08_scatter_src_zero_dim_fixed : forall dim idx out,
+  (zlen idx <= 1) -> torch_scatter_shape [] dim idx (Some idx) = Some out -> aten_scatter_src_shape_v true [] dim idx idx = Some out.
+Proof. exact scatter_src_zero_dim_fixed. Qed.
+Print Assumptions C08_scatter_src_zero_dim_fixed.
+Theorem C08_scatter_value_zero_dim_fixed : forall dim idx out,
+  (zlen idx <= 1) -> torch_scatter_shape [] dim idx None = Some out -> aten_scatter_value_shape_v true [] dim idx = Some out.
+Proof. exact scatter_value_zero_dim_fixed. Qed.
+Print Assumptions C08_scatter_value_zero_dim_fixed.
+(* on rank >= 1 the flagged variants are the functions of the theorems above *)
+Theorem C08_scatter_v_rank_pos : forall sf s dim idx src, 0 < zlen s ->
+  aten_scatter_src_shape_v sf s dim idx src = aten_scatter_src_shape s dim idx src /\
+  aten_scatter_value_shape_v sf s dim idx = aten_scatter_value_shape s dim idx.
+Proof. exact scatter_v_rank_pos. Qed.
+Print Assumptions C08_scatter_v_rank_pos.
